@@ -420,6 +420,77 @@ def param_type_table_rules(ctx, rule='R6'):
     ctx.inst(rule, (PAR, 'ParamTocElement'), 'param-type-set', set(types) == {0, 1, 2, 3, 5, 6, 7, 8, 9, 10, 11}, 'type codes present: %s' % sorted(types))
 
 
+def param_metadata_rules(ctx, rule='R6'):
+    """ParamTocElement.__init__: the metadata byte is split into type (low nibble, every row of the type table reachable),
+    extended marker (bit 4) and read-only marker (bit 6).  Shared with C04: the declared type and the read-only refusal of a
+    write come from here."""
+    m = ctx.model
+    pe = m.cls(PAR, 'ParamTocElement')
+    init = pe.method('__init__')
+    masks = {}
+    for n in ast.walk(init.node):
+        if isinstance(n, ast.BinOp) and isinstance(n.op, ast.BitAnd) and norm(n.left) == 'metadata':
+            masks[fold_in(init, n.right)] = True
+    ctx.inst(rule, init, 'param-masks', set(masks) == {0x0F, 0x10, 0x40}, 'metadata masks %s, expected type 0x0F, extended 0x10, read-only 0x40' % sorted(masks))
+    sts = {norm(s.targets[0]): s for s in sorted([x for x in walk_own(init.node) if isinstance(x, ast.Assign)], key=lambda x: x.lineno)}
+    ctx.inst(rule, init, 'param-extended-bit', 'self.extended' in sts and (canon_test(sts['self.extended'].value) in (fact_key('metadata & 16 != 0')[0], 'not ' + fact_key('metadata & 16 == 0')[0], 'not 0 == metadata & 16') or norm(sts['self.extended'].value) == 'bool(metadata & 16)'),
+             'extended marker = bit 4; found %s' % (norm(sts['self.extended'].value) if 'self.extended' in sts else None))
+    g2 = cfg_of(init)
+    ro = [n for n in g2.nodes if n.kind == 'stmt' and isinstance(n.ast, ast.Assign) and norm(n.ast.targets[0]) == 'self.access']
+    okro = len(ro) == 2
+    for n in ro:
+        want_ro = fact_key('metadata & 64 != 0', True) in g2.fact_keys_at(n)
+        v_ = n.ast.value                                       # the class constant by value, however the class is named at the site
+        cname = v_.attr if isinstance(v_, ast.Attribute) and isinstance(v_.value, ast.Name) and v_.value.id in ('self', 'ParamTocElement', 'cls') else None
+        okro = okro and cname == ('RO_ACCESS' if want_ro else 'RW_ACCESS')
+    ctx.inst(rule, init, 'param-readonly-bit', okro, 'access = RO iff bit 6 set')
+    # the numbers behind the two names are written into the TOC cache files ("access": 0 / 1) that clients ship and keep across
+    # library versions: renumbering them makes every cached read-only parameter writable and every writable one refused
+    acc = {n_: fold_in(init, pe.consts[n_]) if n_ in pe.consts else None for n_ in ('RW_ACCESS', 'RO_ACCESS')}
+    ctx.inst(rule, (PAR, 'ParamTocElement'), 'access-numbers-are-the-cache-format', acc == {'RW_ACCESS': 0, 'RO_ACCESS': 1},
+             'RW_ACCESS / RO_ACCESS are 0 / 1 in stored TOC caches; found %s' % acc)
+    def _thru(st_):
+        n_ = g2.node_of(st_.value)
+        return norm(g2.expand_locals(n_, st_.value, pure_only=False, keep=('metadata', 'data'))) if n_ is not None else norm(st_.value)
+    ctx.inst(rule, init, 'param-type-lookup', _thru(sts['self.ctype']) == 'self.types[metadata & 15][0]' and
+             _thru(sts['self.pytype']) == 'self.types[metadata & 15][1]', 'ctype/pytype come from columns 0/1 of the type row')
+
+
+def log_type_table_rules(ctx, rule='R6'):
+    """LogTocElement.types against the firmware's log.h (code -> C type, size) and the column getters.  Shared with C05: the
+    size and the decoding of every logged value come from this table."""
+    m = ctx.model
+    le = m.cls(LOG, 'LogTocElement')
+    ltypes = fold_in(le.method('__init__'), le.consts['types'])
+    ctx.need(isinstance(ltypes, dict), 'LogTocElement.types not foldable')
+    for code, (cname, fmt, size) in sorted(ltypes.items()):
+        fw = FW_LOG_TYPES.get(code)
+        try:
+            fsize = struct.calcsize(fmt)
+        except struct.error:
+            fsize = None
+        ok = fw == (cname, size) and fsize == size and fmt[:1] == '<'
+        if ok and cname not in ('float', 'FP16'):
+            ok = fmt[-1].isupper() == cname.startswith('u')
+        if ok and cname == 'float':
+            ok = fmt == '<f'
+        if ok and cname == 'FP16':
+            ok = fmt == '<e'
+        ctx.inst(rule, (LOG, 'LogTocElement'), 'log-type:%d' % code, ok, 'log type %d = (%s, %s, %s); firmware log.h: %s' % (code, cname, fmt, size, fw))
+    ctx.inst(rule, (LOG, 'LogTocElement'), 'log-type-set', set(ltypes) == set(FW_LOG_TYPES), 'log type codes %s' % sorted(ltypes))
+    for getter, col in (('get_cstring_from_id', 0), ('get_unpack_string_from_id', 1), ('get_size_from_id', 2)):
+        f = le.method(getter)
+        gf_ = cfg_of(f)
+        rets = [norm(gf_.expand_locals(gf_.node_of(s), s.value, pure_only=False, keep=tuple(f.params))) if gf_.node_of(s) is not None else norm(s.value)
+                for s in walk_own(f.node) if isinstance(s, ast.Return) and s.value is not None]
+        ctx.inst(rule, f, 'log-column', rets == ['LogTocElement.types[%s][%d]' % (f.params[0], col)], '%s returns %s, expected column %d' % (getter, rets, col))
+    li = le.method('__init__')
+    lst = {norm(s.targets[0]): norm(s.value) for s in sorted([x for x in walk_own(li.node) if isinstance(x, ast.Assign)], key=lambda x: x.lineno)}
+    ctx.inst(rule, li, 'log-type-from-byte-0', lst.get('self.ctype') == 'LogTocElement.get_cstring_from_id(data[0])' and
+             lst.get('self.pytype') == 'LogTocElement.get_unpack_string_from_id(data[0])', 'type comes from byte 0 of the element data')
+
+
+
 def check(ctx):
     m = ctx.model
     fetcher, cb, g, pkv, adds, reqs = fetch_guard_rules(ctx, 'R1')
@@ -573,59 +644,13 @@ def check(ctx):
 
     # ---- R6: type tables ----------------------------------------------------------------------------
     pe = m.cls(PAR, 'ParamTocElement')
-    param_type_table_rules(ctx, 'R6')
     init = pe.method('__init__')
-    masks = {}
-    for n in ast.walk(init.node):
-        if isinstance(n, ast.BinOp) and isinstance(n.op, ast.BitAnd) and norm(n.left) == 'metadata':
-            masks[fold_in(init, n.right)] = True
-    ctx.inst('R6', init, 'param-masks', set(masks) == {0x0F, 0x10, 0x40}, 'metadata masks %s, expected type 0x0F, extended 0x10, read-only 0x40' % sorted(masks))
-    sts = {norm(s.targets[0]): s for s in sorted([x for x in walk_own(init.node) if isinstance(x, ast.Assign)], key=lambda x: x.lineno)}
-    ctx.inst('R6', init, 'param-extended-bit', 'self.extended' in sts and (canon_test(sts['self.extended'].value) in (fact_key('metadata & 16 != 0')[0], 'not ' + fact_key('metadata & 16 == 0')[0], 'not 0 == metadata & 16') or norm(sts['self.extended'].value) == 'bool(metadata & 16)'),
-             'extended marker = bit 4; found %s' % (norm(sts['self.extended'].value) if 'self.extended' in sts else None))
-    g2 = cfg_of(init)
-    ro = [n for n in g2.nodes if n.kind == 'stmt' and isinstance(n.ast, ast.Assign) and norm(n.ast.targets[0]) == 'self.access']
-    okro = len(ro) == 2
-    for n in ro:
-        want_ro = fact_key('metadata & 64 != 0', True) in g2.fact_keys_at(n)
-        v_ = n.ast.value                                       # the class constant by value, however the class is named at the site
-        cname = v_.attr if isinstance(v_, ast.Attribute) and isinstance(v_.value, ast.Name) and v_.value.id in ('self', 'ParamTocElement', 'cls') else None
-        okro = okro and cname == ('RO_ACCESS' if want_ro else 'RW_ACCESS')
-    ctx.inst('R6', init, 'param-readonly-bit', okro, 'access = RO iff bit 6 set')
-    def _thru(st_):
-        n_ = g2.node_of(st_.value)
-        return norm(g2.expand_locals(n_, st_.value, pure_only=False, keep=('metadata', 'data'))) if n_ is not None else norm(st_.value)
-    ctx.inst('R6', init, 'param-type-lookup', _thru(sts['self.ctype']) == 'self.types[metadata & 15][0]' and
-             _thru(sts['self.pytype']) == 'self.types[metadata & 15][1]', 'ctype/pytype come from columns 0/1 of the type row')
+    param_type_table_rules(ctx, 'R6')
+    param_metadata_rules(ctx, 'R6')
+    log_type_table_rules(ctx, 'R6')
     le = m.cls(LOG, 'LogTocElement')
-    ltypes = fold_in(le.method('__init__'), le.consts['types'])
-    ctx.need(isinstance(ltypes, dict), 'LogTocElement.types not foldable')
-    for code, (cname, fmt, size) in sorted(ltypes.items()):
-        fw = FW_LOG_TYPES.get(code)
-        try:
-            fsize = struct.calcsize(fmt)
-        except struct.error:
-            fsize = None
-        ok = fw == (cname, size) and fsize == size and fmt[:1] == '<'
-        if ok and cname not in ('float', 'FP16'):
-            ok = fmt[-1].isupper() == cname.startswith('u')
-        if ok and cname == 'float':
-            ok = fmt == '<f'
-        if ok and cname == 'FP16':
-            ok = fmt == '<e'
-        ctx.inst('R6', (LOG, 'LogTocElement'), 'log-type:%d' % code, ok, 'log type %d = (%s, %s, %s); firmware log.h: %s' % (code, cname, fmt, size, fw))
-    ctx.inst('R6', (LOG, 'LogTocElement'), 'log-type-set', set(ltypes) == set(FW_LOG_TYPES), 'log type codes %s' % sorted(ltypes))
-    for getter, col in (('get_cstring_from_id', 0), ('get_unpack_string_from_id', 1), ('get_size_from_id', 2)):
-        f = le.method(getter)
-        gf_ = cfg_of(f)
-        rets = [norm(gf_.expand_locals(gf_.node_of(s), s.value, pure_only=False, keep=tuple(f.params))) if gf_.node_of(s) is not None else norm(s.value)
-                for s in walk_own(f.node) if isinstance(s, ast.Return) and s.value is not None]
-        ctx.inst('R6', f, 'log-column', rets == ['LogTocElement.types[%s][%d]' % (f.params[0], col)], '%s returns %s, expected column %d' % (getter, rets, col))
     li = le.method('__init__')
     lst = {norm(s.targets[0]): norm(s.value) for s in sorted([x for x in walk_own(li.node) if isinstance(x, ast.Assign)], key=lambda x: x.lineno)}
-    ctx.inst('R6', li, 'log-type-from-byte-0', lst.get('self.ctype') == 'LogTocElement.get_cstring_from_id(data[0])' and
-             lst.get('self.pytype') == 'LogTocElement.get_unpack_string_from_id(data[0])', 'type comes from byte 0 of the element data')
-
     # ---- R7: names -----------------------------------------------------------------------------------
     ctx.inst('R7', li, 'log-skip-metadata', lst.get('naming') == 'data[1:]', 'names start after the one metadata byte')
     ctx.inst('R7', li, 'log-group', lst.get('self.group') == "naming[:naming.find(zt)].decode('ISO-8859-1')" and lst.get('zt') == 'bytearray((0,))',
